@@ -1,4 +1,5 @@
 import FrappyProofs.Lemmas.Describe
+import FrappyProofs.Lemmas.ModuleProps
 import FrappyProofs.Props.C04
 import FrappyModel.Generated.C06
 /-
@@ -6,6 +7,7 @@ C06 — property theorems (nothing but property theorems and their non-vacuity e
 -/
 namespace Frappy.Props.C06
 open Frappy.Node Frappy.Spec.C04 Frappy.Spec.C06 Frappy.Lemmas.Dispatch Frappy.Lemmas.Describe Frappy.Props.C04
+open Frappy.Lemmas.ModuleProps
 
 variable {J V : Type}
 
@@ -380,6 +382,40 @@ theorem announce_mem (pre : Predef) (mod : Module J V) (p : Param J V) (v : V) (
   · rename_i w hw; simp only [List.mem_singleton] at h; exact ⟨w, hw, h⟩
   · cases h
 
+/-- the datatype-oracle law C01–C03 establish for the real datatypes, stated for the parameters OF THIS NODE: a client
+datatype rebuilt from the datainfo of a parameter imports the export of every value that parameter's datatype produced.
+(Stated for all conceivable `DtOps` it could only be satisfied by a client that imports everything.) -/
+def ImportLaw (clientImports : J → J → Bool) (n : Node J V) : Prop :=
+  ∀ mod ∈ n, ∀ p, Acc.param p ∈ mod.accs → ∀ v, Validated p.dt v → clientImports p.dt.datainfo (p.dt.exportV v) = true
+
+/-- … and the law for acceptance: the client datatype accepts exactly the payloads the parameter's own datatype accepts -/
+def AcceptLaw (clientAccepts : J → J → Bool) (n : Node J V) : Prop :=
+  ∀ mod ∈ n, ∀ p, Acc.param p ∈ mod.accs → ∀ j prev, clientAccepts p.dt.datainfo j = true ↔ ∃ v, p.dt.accept j prev = .ok v
+
+/-- storing a cache entry does not touch any datatype: the law carries over -/
+theorem importLaw_setEntry (clientImports : J → J → Bool) (n : Node J V) (mod attr : String) (e : Entry V)
+    (h : ImportLaw clientImports n) : ImportLaw clientImports (setEntry n mod attr e) := by
+  intro m' hm' p' hp' v hv
+  rw [setEntry_eq_map] at hm'
+  obtain ⟨m0, hm0, rfl⟩ := List.mem_map.1 hm'
+  obtain ⟨a, ha, hx | hx⟩ := updMod_acc mod attr e m0 (.param p') hp'
+  · exact h m0 hm0 p' (hx ▸ ha) v hv
+  · cases a with
+    | command c => simp [Acc.setEntry] at hx
+    | param p0 =>
+      simp only [Acc.setEntry] at hx
+      by_cases hb : (p0.attr == attr) = true
+      · rw [if_pos hb] at hx; injection hx with hx; subst hx
+        exact h m0 hm0 p0 ha v hv
+      · rw [if_neg hb] at hx; injection hx with hx; subst hx
+        exact h m0 hm0 p' ha v hv
+
+theorem importLaw_step (pre : Predef) (env : Env V) (clientImports : J → J → Bool) (n : Node J V) (r : Request J V)
+    (h : ImportLaw clientImports n) : ImportLaw clientImports (step pre env n r).node := by
+  rcases step_node pre env n r with hn | ⟨mod, attr, e, hn⟩
+  · rw [hn]; exact h
+  · rw [hn]; exact importLaw_setEntry clientImports n mod attr e h
+
 /-- every value update a `change` emits is the export of a value validated by the datatype of the described
 parameter it is emitted for -/
 theorem change_emits_validated (pre : Predef) (env : Env V) (n : Node J V) (hwf : Node.WF pre n) (spec : Spec) (j : J)
@@ -416,15 +452,14 @@ theorem change_emits_validated (pre : Predef) (env : Env V) (n : Node J V) (hwf 
 datatypes: a client datatype rebuilt from the described datainfo imports the export of every validated value.
 Then every value update a `change` emits can be imported with the datainfo the report gives for that name. -/
 theorem emits_importable (pre : Predef) (env : Env V) (n : Node J V) (hwf : Node.WF pre n)
-    (clientImports : J → J → Bool)
-    (law : ∀ (dt : DtOps J V) (v : V), Validated dt v → clientImports dt.datainfo (dt.exportV v) = true)
+    (clientImports : J → J → Bool) (law : ImportLaw clientImports n)
     (spec : Spec) (j : J) (m w : String) (jv : J)
     (h : Msg.update m w jv ∈ (handleChange pre env n spec j).emits) :
     ∃ ad, findDesc (describe pre n) m w = some ad ∧ clientImports ad.datainfo jv = true := by
   obtain ⟨mod, p, w', v, hmem, hacc, hw, hm, hval⟩ := change_emits_validated pre env n hwf spec j _ h
   injection hm with h1 h2 h3
   subst h1; subst h2; subst h3
-  refine ⟨⟨w, .parameter, p.dt.datainfo, some p.readonly, p.constant.map p.dt.exportV, p.props⟩, ?_, law p.dt v hval⟩
+  refine ⟨⟨w, .parameter, p.dt.datainfo, some p.readonly, p.constant.map p.dt.exportV, p.props, none⟩, ?_, law mod hmem p hacc v hval⟩
   rw [findDesc_eq pre n hwf.names mod.name w, findModule_of_mem pre n hwf mod hmem]
   simp only
   have hexp : mod.exported = true := by
@@ -540,8 +575,7 @@ theorem describe_step (pre : Predef) (env : Env V) (n : Node J V) (r : Request J
 emitted at any point of any history — by a `change` or by a `read` — can be imported with the datainfo that the
 report (taken at any time: it is stable) gives for the name the update carries. -/
 theorem emits_importable_history (pre : Predef) (clientImports : J → J → Bool)
-    (law : ∀ (dt : DtOps J V) (v : V), Validated dt v → clientImports dt.datainfo (dt.exportV v) = true)
-    (n : Node J V) (hwf : Node.WF pre n) (h : List (Env V × Request J V))
+    (n : Node J V) (hwf : Node.WF pre n) (law : ImportLaw clientImports n) (h : List (Env V × Request J V))
     (o : Outcome J V) (ho : o ∈ run pre n h) (m w : String) (jv : J) (hm : Msg.update m w jv ∈ o.emits) :
     ∃ ad, findDesc (describe pre n) m w = some ad ∧ clientImports ad.datainfo jv = true := by
   induction h generalizing n with
@@ -552,7 +586,7 @@ theorem emits_importable_history (pre : Predef) (clientImports : J → J → Boo
     rcases ho with rfl | ho
     · obtain ⟨mod, p, v, hmem, hname, hacc, hw, hjv, hval⟩ := step_emits_validated pre env n hwf r m w jv hm
       subst hname; subst hjv
-      refine ⟨⟨w, .parameter, p.dt.datainfo, some p.readonly, p.constant.map p.dt.exportV, p.props⟩, ?_, law p.dt v hval⟩
+      refine ⟨⟨w, .parameter, p.dt.datainfo, some p.readonly, p.constant.map p.dt.exportV, p.props, none⟩, ?_, law mod hmem p hacc v hval⟩
       rw [findDesc_eq pre n hwf.names mod.name w, findModule_of_mem pre n hwf mod hmem]
       simp only
       have hexp : mod.exported = true := by
@@ -563,7 +597,7 @@ theorem emits_importable_history (pre : Predef) (clientImports : J → J → Boo
       have := find?_of_nodup_filterMap (wireName pre mod) mod.accs (hwf.wires mod hmem) (.param p) hacc w hw
       unfold findWire; rw [this]; simp only [Option.bind_some]
       exact describeAcc_param pre mod p w hw
-    · have := ih (step pre env n r).node (wf_step pre env n hwf r) ho
+    · have := ih (step pre env n r).node (wf_step pre env n hwf r) (importLaw_step pre env clientImports n r law) ho
       rw [describe_step] at this
       exact this
 
@@ -720,8 +754,7 @@ history preserves (`cache_valid`) — the value of every read reply (constant, c
 `read_` method, freshly read value) is importable with the datainfo the report gives for that name.  The snapshot a
 new subscriber gets consists of the same exported cache values. -/
 theorem read_reply_importable (pre : Predef) (env : Env V) (n : Node J V) (hwf : Node.WF pre n) (hc : CacheValid n)
-    (clientImports : J → J → Bool)
-    (law : ∀ (dt : DtOps J V) (v : V), Validated dt v → clientImports dt.datainfo (dt.exportV v) = true)
+    (clientImports : J → J → Bool) (law : ImportLaw clientImports n)
     (m a : String) (jv : J) (h : (handleRead pre env n (.full m a) false).reply = .read jv) :
     ∃ ad, findDesc (describe pre n) m a = some ad ∧ clientImports ad.datainfo jv = true := by
   unfold handleRead at h
@@ -735,7 +768,7 @@ theorem read_reply_importable (pre : Predef) (env : Env V) (n : Node J V) (hwf :
     have hcv := hc mod hex.1 p hex.2.2.2.1
     have hw : wireName pre mod (.param p) = some a := by simp [wireName, hex.2.2.1, hex.2.2.2.2]
     have hdesc : findDesc (describe pre n) m a =
-        some ⟨a, .parameter, p.dt.datainfo, some p.readonly, p.constant.map p.dt.exportV, p.props⟩ := by
+        some ⟨a, .parameter, p.dt.datainfo, some p.readonly, p.constant.map p.dt.exportV, p.props, none⟩ := by
       rw [findDesc_eq pre n hwf.names m a, ← hex.2.1, findModule_of_mem pre n hwf mod hex.1]
       simp only [hex.2.2.1, if_true]
       have := find?_of_nodup_filterMap (wireName pre mod) mod.accs (hwf.wires mod hex.1) (.param p) hex.2.2.2.1 a hw
@@ -758,20 +791,20 @@ theorem read_reply_importable (pre : Predef) (env : Env V) (n : Node J V) (hwf :
               exact ⟨v, h.symm, Or.inr (Or.inr ⟨_, hv⟩)⟩
         · injection h with h; exact ⟨_, h.symm, hcv.1⟩
     obtain ⟨v, rfl, hv⟩ := key
-    exact law p.dt v hv
+    exact law mod hex.1 p hex.2.2.2.1 v hv
 
 /-- **described_datainfo_equiv** (relative to the datatype oracle).  Assume the C03 law: the client datatype
 rebuilt from a datainfo accepts exactly the payloads the original datatype accepts.  Then the described datainfo of
 `(m, a)` accepts exactly the payloads the node's own parameter `m:a` accepts — because report and dispatcher use
 the same `Param`. -/
 theorem described_datainfo_equiv (pre : Predef) (n : Node J V) (hwf : Node.WF pre n)
-    (clientAccepts : J → J → Bool)
-    (law : ∀ (dt : DtOps J V) (j : J) (prev : Option V), clientAccepts dt.datainfo j = true ↔ ∃ v, dt.accept j prev = .ok v)
+    (clientAccepts : J → J → Bool) (law : AcceptLaw clientAccepts n)
     (m a : String) (ad : AccDesc J) (h : findDesc (describe pre n) m a = some ad) (hk : ad.kind = .parameter) (j : J) :
     ∃ mod p, lookupParam pre n m a = .ok (mod, p) ∧
       (clientAccepts ad.datainfo j = true ↔ ∃ v, p.dt.accept j (some p.entry.value) = .ok v) := by
   obtain ⟨mod, p, hl, _, hdi, _, _⟩ := described_is_dispatched pre n hwf m a ad h hk
-  exact ⟨mod, p, hl, by rw [hdi]; exact law p.dt j _⟩
+  have hex := exported_of_lookupParam pre n m a mod p hl
+  exact ⟨mod, p, hl, by rw [hdi]; exact law mod hex.1 p hex.2.2.2.1 j _⟩
 
 /-- table fact: `datainfo`, `readonly` and `description` are exported for every parameter whatever their value
 (`export='always'`), so every parameter entry of a report carries a readonly flag and a datainfo, as `describeAcc` says -/
@@ -843,6 +876,790 @@ example : interfaceClassesOf Frappy.Generated.C06.secopBaseClasses
        ⟨"Module", false⟩, ⟨"object", false⟩] = ["Drivable"] ∧
     featuresOf [⟨"GenB", false⟩, ⟨"FeatSub", false⟩, ⟨"FeatA", true⟩, ⟨"Drivable", false⟩] = ["FeatA"] := by
   decide +kernel
+
+/-! ### commands: the described kind and the described command datainfo are honoured -/
+
+/-- **described_command_is_dispatched.**  What the report says about the command `(m, a)` — its datainfo and whether that
+datainfo has an `argument` — is read off the very `Command` the dispatcher resolves for `m:a`. -/
+theorem described_command_is_dispatched (pre : Predef) (n : Node J V) (hwf : Node.WF pre n) (m a : String) (ad : AccDesc J)
+    (h : findDesc (describe pre n) m a = some ad) (hk : ad.kind = .command) :
+    ∃ mod c, lookupCommand pre n m a = .ok (mod, c) ∧ findParam pre mod a = none ∧ findModule n m = some mod ∧
+      mod.exported = true ∧ ad.datainfo = c.datainfo ∧ ad.argument = some c.arg.isSome := by
+  obtain ⟨mod, acc, hf, he, hw, hwn, hd⟩ := described_resolves pre n hwf.names m a ad h
+  cases acc with
+  | param p => rw [describeAcc_param pre mod p a hwn] at hd; injection hd with hd; subst hd; cases hk
+  | command c =>
+    rw [describeAcc_command pre mod c a hwn] at hd; injection hd with hd; subst hd
+    refine ⟨mod, c, ?_, ?_, hf, he, rfl, rfl⟩
+    · unfold lookupCommand; rw [hf]; simp only; unfold findCommand; rw [hw]
+    · unfold findParam; rw [hw]
+
+/-- **kind_honoured.**  The described kind is honoured: a described command can neither be changed, read nor subscribed
+(`NoSuchParameter`, no call, node unchanged, refused before subscribing), a described parameter can not be executed. -/
+theorem kind_honoured (pre : Predef) (env : Env V) (n : Node J V) (hwf : Node.WF pre n) (m a : String) (ad : AccDesc J)
+    (h : findDesc (describe pre n) m a = some ad) (data : Option J) :
+    (ad.kind = .command →
+      (∀ j, handleChange pre env n (.full m a) j = ⟨.error .noSuchParameter, [], [], n⟩) ∧
+      handleRead pre env n (.full m a) false = ⟨.error .noSuchParameter, [], [], n⟩ ∧
+      activateRefusal pre n (.full m a) = some .noSuchParameter) ∧
+    (ad.kind = .parameter → handleDo pre env n (.full m a) data = ⟨.error .noSuchCommand, [], [], n⟩) := by
+  constructor
+  · intro hk
+    obtain ⟨mod, c, _, hp, hf, he, _, _⟩ := described_command_is_dispatched pre n hwf m a ad h hk
+    refine ⟨?_, ?_, ?_⟩
+    · intro j; simp [handleChange, target, lookupParam, hf, hp, refuse, mkErr]
+    · simp [handleRead, target, lookupParam, hf, hp, refuse, mkErr]
+    · simp [activateRefusal, hf, he, hp]
+  · intro hk
+    obtain ⟨mod, acc, hf, he, hw, hwn, hd⟩ := described_resolves pre n hwf.names m a ad h
+    cases acc with
+    | command c => rw [describeAcc_command pre mod c a hwn] at hd; injection hd with hd; subst hd; cases hk
+    | param p => simp [handleDo, targetDo, lookupCommand, hf, findCommand, hw, refuse, mkErr]
+
+/-- the payloads the NODE accepts for a `do` of the command `c`: none for a command without argument, exactly those its
+argument datatype accepts otherwise -/
+def NodeAccepts (c : Command J V) (data : Option J) : Prop :=
+  match c.arg, data with
+  | none, none => True
+  | none, some _ => False
+  | some _, none => False
+  | some ops, some j => ∃ v, ops.accept j = .ok v
+
+/-- a `do` aimed at a described command is decided by `Command.do`'s test of the payload alone: a payload the node accepts
+reaches the command function (exactly one call), any other is refused without a call and leaves the node unchanged -/
+theorem do_described_command (pre : Predef) (env : Env V) (n : Node J V) (mod : Module J V) (c : Command J V) (m a : String)
+    (hl : lookupCommand pre n m a = .ok (mod, c)) (data : Option J) :
+    (NodeAccepts c data → ∃ arg, handleDo pre env n (.full m a) data = finishDo env n mod c arg ∧
+        (handleDo pre env n (.full m a) data).calls = [DriverCall.cmd mod.name c.attr arg]) ∧
+    (¬ NodeAccepts c data → ∃ cls, handleDo pre env n (.full m a) data = ⟨.error cls, [], [], n⟩) := by
+  have hdo : handleDo pre env n (.full m a) data =
+      match admitDo c data with
+      | .error e => refuse n e
+      | .ok arg => finishDo env n mod c arg := by
+    unfold handleDo; simp only [targetDo]; rw [hl]; rfl
+  unfold NodeAccepts
+  cases harg : c.arg with
+  | none =>
+    cases data with
+    | none =>
+      have : admitDo c none = .ok none := by unfold admitDo; rw [harg]
+      rw [hdo, this]
+      exact ⟨fun _ => ⟨none, rfl, (finishDo_calls env n mod c none).1⟩, fun h => absurd trivial h⟩
+    | some j =>
+      have : admitDo c (some j) = .error (mkErr .wrongType) := by unfold admitDo; rw [harg]
+      rw [hdo, this]
+      exact ⟨fun h => h.elim, fun _ => ⟨_, rfl⟩⟩
+  | some ops =>
+    cases data with
+    | none =>
+      have : admitDo c none = .error (mkErr .wrongType) := by unfold admitDo; rw [harg]
+      rw [hdo, this]
+      exact ⟨fun h => h.elim, fun _ => ⟨_, rfl⟩⟩
+    | some j =>
+      cases hacc : ops.accept j with
+      | error e =>
+        have : admitDo c (some j) = .error e := by unfold admitDo; rw [harg]; simp only; rw [hacc]
+        rw [hdo, this]
+        exact ⟨fun ⟨v, hv⟩ => (by rw [hacc] at hv; cases hv), fun _ => ⟨_, rfl⟩⟩
+      | ok v =>
+        have : admitDo c (some j) = .ok (some v) := by unfold admitDo; rw [harg]; simp only; rw [hacc]
+        rw [hdo, this]
+        exact ⟨fun _ => ⟨some v, rfl, (finishDo_calls env n mod c (some v)).1⟩, fun h => absurd (by first | exact ⟨v, hacc⟩ | exact ⟨v, rfl⟩) h⟩
+
+/-- **command_datainfo_equiv** (the clause "each described datainfo accepts and rejects the same payloads as the node itself
+does", for commands; relative to the datatype oracle).  Assume the C03 law for the argument datatypes of this node: the argument
+datatype a client rebuilds from the datainfo of one of its commands accepts exactly the payloads the command's own argument datatype accepts.  Then the
+payloads the DESCRIBED datainfo of `(m, a)` accepts — none if it has no `argument`, those its argument datatype accepts
+otherwise — are exactly the payloads for which the node executes the command; every other payload is refused, the command
+function is not called and the node is unchanged. -/
+theorem command_datainfo_equiv (pre : Predef) (env : Env V) (n : Node J V) (hwf : Node.WF pre n)
+    (clientAccepts : J → J → Bool)
+    (law : ∀ mod ∈ n, ∀ (c : Command J V), Acc.command c ∈ mod.accs → ∀ ops, c.arg = some ops →
+      ∀ j, clientAccepts c.datainfo j = true ↔ ∃ v, ops.accept j = .ok v)
+    (m a : String) (ad : AccDesc J) (h : findDesc (describe pre n) m a = some ad) (hk : ad.kind = .command)
+    (data : Option J) :
+    (describedAccepts clientAccepts ad data = true →
+      (handleDo pre env n (.full m a) data).calls ≠ [] ∧ (handleDo pre env n (.full m a) data).node = n) ∧
+    (describedAccepts clientAccepts ad data = false →
+      ∃ cls, handleDo pre env n (.full m a) data = ⟨.error cls, [], [], n⟩) := by
+  obtain ⟨mod, c, hl, _, _, _, hdi, harg⟩ := described_command_is_dispatched pre n hwf m a ad h hk
+  have hiff : describedAccepts clientAccepts ad data = true ↔ NodeAccepts c data := by
+    unfold describedAccepts
+    rw [harg, hdi]
+    unfold payloadAcceptable NodeAccepts
+    cases hca : c.arg with
+    | none => cases data <;> simp
+    | some ops =>
+      cases data with
+      | none => simp
+      | some j =>
+        have hex := exported_of_lookupCommand pre n m a mod c hl
+        simpa using law mod hex.1 c hex.2.2.2.1 ops hca j
+  obtain ⟨hyes, hno⟩ := do_described_command pre env n mod c m a hl data
+  constructor
+  · intro hok
+    obtain ⟨arg, heq, hcalls⟩ := hyes (hiff.1 hok)
+    exact ⟨by rw [hcalls]; simp, by rw [heq]; exact (finishDo_calls env n mod c arg).2.1⟩
+  · intro hok
+    exact hno (fun hacc => by rw [hiff.2 hacc] at hok; cases hok)
+
+/-- **model_do_probe_ok** (the monitor clause for `do` is sound on the model).  Under the same oracle law, the exchange the
+model produces for ANY `do m:a` — described command, described parameter or undescribed name — satisfies `ProbeOK` against the
+model's own report, when `client` is the client-side verdict on the payload. -/
+theorem model_do_probe_ok [DecidableEq J] (pre : Predef) (env : Env V) (n : Node J V) (hwf : Node.WF pre n)
+    (clientAccepts : J → J → Bool)
+    (law : ∀ mod ∈ n, ∀ (c : Command J V), Acc.command c ∈ mod.accs → ∀ ops, c.arg = some ops →
+      ∀ j, clientAccepts c.datainfo j = true ↔ ∃ v, ops.accept j = .ok v)
+    (m a : String) (data : Option J) (client : Bool)
+    (hclient : ∀ ad j, findDesc (describe pre n) m a = some ad → data = some j → client = clientAccepts ad.datainfo j) :
+    ProbeOK (describe pre n)
+      ⟨.do_, m, a, (handleDo pre env n (.full m a) data).reply, (handleDo pre env n (.full m a) data).calls, false, false,
+       data.isSome, client⟩ := by
+  unfold ProbeOK
+  simp only
+  cases hd : findDesc (describe pre n) m a with
+  | none =>
+    simp only
+    have hdo : ∃ cls, handleDo pre env n (.full m a) data = ⟨.error cls, [], [], n⟩ ∧
+        (cls = .noSuchModule ∨ cls = .noSuchCommand) := by
+      cases hf : findModule n m with
+      | none => exact ⟨.noSuchModule, by simp [handleDo, targetDo, lookupCommand, hf, refuse, mkErr], Or.inl rfl⟩
+      | some mod =>
+        have hw := findWire_none_of_undescribed pre n hwf m a hd mod hf
+        exact ⟨.noSuchCommand, by simp [handleDo, targetDo, lookupCommand, hf, findCommand, hw, refuse, mkErr], Or.inr rfl⟩
+    obtain ⟨cls, hdo, hcls⟩ := hdo
+    rw [hdo]
+    rcases hcls with rfl | rfl <;> simp [isNoSuch]
+  | some ad =>
+    simp only
+    constructor
+    · intro hk
+      rw [(kind_honoured pre env n hwf m a ad hd data).2 hk]
+      simp [isNoSuch]
+    · intro hk
+      have hpa : payloadAcceptable ad.argument data.isSome client = describedAccepts clientAccepts ad data := by
+        unfold describedAccepts
+        cases data with
+        | none =>
+          unfold payloadAcceptable
+          cases ad.argument with
+          | none => rfl
+          | some b => cases b <;> simp
+        | some j => rw [hclient ad j hd rfl]
+      rw [hpa]
+      obtain ⟨hyes, hno⟩ := command_datainfo_equiv pre env n hwf clientAccepts law m a ad hd hk data
+      constructor
+      · intro hf
+        obtain ⟨cls, hdo⟩ := hno hf
+        rw [hdo]; simp [Reply.isError]
+      · intro ht
+        exact (hyes ht).1
+
+/-! ### `constant ⇒ readonly` is established by `Parameter.finish`, whatever class and configuration say -/
+
+/-- **finish_constRO.**  A parameter whose flags come out of `Parameter.finish` (class-level values, overridden by the
+configuration, then "a constant parameter is read-only") satisfies the well-formedness clause `constRO` — for EVERY
+combination of class-level and configured `readonly` / `constant`, in particular for a configuration that says
+`readonly = False` and gives a constant. -/
+theorem finish_constRO (p : Param J V) (i : ParamInit V) (h : (p.withInit i).constant.isSome = true) :
+    (p.withInit i).readonly = true := by
+  unfold Param.withInit finishFlags at *
+  simp only at h ⊢
+  rw [h]; simp
+
+/-- a module all of whose parameters went through `finish` satisfies `Module.constRO` (one assumption of `Node.WF` less
+for nodes built this way, as the driver builds them from the real objects) -/
+theorem constRO_of_finish (m : Module J V)
+    (h : ∀ a ∈ m.accs, ∀ p, a = .param p → ∃ p0 i, p = Param.withInit p0 i) : m.constRO := by
+  intro a ha p hp hc
+  obtain ⟨p0, i, rfl⟩ := h a ha p hp
+  exact finish_constRO p0 i hc
+
+/-- the configuration decides `readonly` where no constant is involved (the model of the override is not vacuous) -/
+theorem cfg_readonly_applied (p : Param J V) (clsR r : Bool) :
+    (p.withInit ⟨clsR, none, some r, none⟩).readonly = r ∧ (p.withInit ⟨clsR, none, none, none⟩).readonly = clsR := by
+  unfold Param.withInit finishFlags; simp
+
+open Frappy.Props.C04.Example in
+/-- non-vacuity: the writable `target` with a configuration `readonly = False, constant = 5` comes out read-only with
+constant 5, and the module built from it satisfies `constRO` -/
+example : ((target.withInit ⟨false, none, some false, some 5⟩).readonly, (target.withInit ⟨false, none, some false, some 5⟩).constant)
+      = (true, some 5) ∧
+    Module.constRO (J := Nat) (V := Nat) { m with accs := [.param (target.withInit ⟨false, none, some false, some 5⟩)] } := by
+  refine ⟨by decide +kernel, constRO_of_finish _ ?_⟩
+  intro a ha p hp
+  simp only [List.mem_singleton] at ha
+  subst ha; injection hp with hp
+  exact ⟨_, _, hp.symm⟩
+
+/-! ### the "lists exactly" monitor -/
+
+theorem mem_exportedPairs (pre : Predef) (n : Node J V) (m a : String) :
+    (m, a) ∈ exportedPairs pre n ↔ Exported pre n m a := by
+  unfold exportedPairs Exported
+  simp only [List.mem_flatMap]
+  constructor
+  · rintro ⟨mod, hmod, h⟩
+    by_cases he : mod.exported = true
+    · rw [if_pos he] at h
+      obtain ⟨acc, hacc, hw⟩ := List.mem_filterMap.1 h
+      cases hx : exportName pre acc with
+      | none => rw [hx] at hw; cases hw
+      | some w =>
+        rw [hx] at hw; simp only [Option.map_some, Option.some.injEq, Prod.mk.injEq] at hw
+        exact ⟨mod, acc, hmod, hw.1, he, hacc, by rw [hx, hw.2]⟩
+    · rw [if_neg he] at h; cases h
+  · rintro ⟨mod, acc, hmod, hname, he, hacc, hw⟩
+    refine ⟨mod, hmod, ?_⟩
+    rw [if_pos he]
+    exact List.mem_filterMap.2 ⟨acc, hacc, by rw [hw, hname]; rfl⟩
+
+/-- **listsExactlyB_sound.**  The monitor accepts a report (of the implementation) only if the clause "lists exactly
+the exported modules and accessibles under their wire names" holds of it. -/
+theorem listsExactlyB_sound (pre : Predef) (n : Node J V) (d : List (ModDesc J)) (h : listsExactlyB pre n d = true) :
+    ListsExactly pre n d := by
+  unfold listsExactlyB at h
+  simp only [Bool.and_eq_true, decide_eq_true_eq, List.all_eq_true, List.contains_iff_mem] at h
+  obtain ⟨⟨⟨⟨⟨h1, h2⟩, h3⟩, _⟩, h5⟩, h6⟩ := h
+  refine ⟨?_, h1, ?_⟩
+  · intro m a
+    rw [← mem_exportedPairs]
+    exact ⟨fun hx => h2 _ hx, fun hx => h3 _ hx⟩
+  · intro m
+    have hm : m ∈ exportedModules n ↔ ∃ mod ∈ n, mod.name = m ∧ mod.exported = true := by
+      unfold exportedModules
+      simp only [List.mem_map, List.mem_filter]
+      constructor
+      · rintro ⟨mod, ⟨hmod, he⟩, rfl⟩; exact ⟨mod, hmod, rfl, he⟩
+      · rintro ⟨mod, hmod, rfl, he⟩; exact ⟨mod, ⟨hmod, he⟩, rfl⟩
+    rw [← hm]
+    exact ⟨fun hx => h5 _ hx, fun hx => h6 _ hx⟩
+
+open Frappy.Props.C04.Example in
+/-- non-vacuity: the monitor accepts the model's own report of the example node -/
+example : listsExactlyB pre node (describe pre node) = true := by decide +kernel
+
+/-! ### the probe specification holds of the model (soundness of the monitor clauses for change and read) -/
+
+/-- the error class ReadOnly is the dispatcher's own: neither the datatypes of the node, nor the hooks, nor the drivers
+use it for their refusals (they raise WrongType / RangeError / hardware errors …) -/
+structure NoForeignReadOnly (env : Env V) (n : Node J V) : Prop where
+  accept : ∀ mod ∈ n, ∀ p, Acc.param p ∈ mod.accs → ∀ j prev e, p.dt.accept j prev = .error e → e.cls ≠ .readOnly
+  reval : ∀ mod ∈ n, ∀ p, Acc.param p ∈ mod.accs → ∀ v e, p.dt.revalidate v = .error e → e.cls ≠ .readOnly
+  chk : ∀ m a i v e, env.chk m a i v = .raise e → e.cls ≠ .readOnly
+  drv : ∀ call e, env.drv call = .raise e → e.cls ≠ .readOnly
+
+theorem runChecks_ne_readOnly (env : Env V) (mod : Module J V) (attr : String) (v : V) (cs : List Check) (e : Node.Err)
+    (hchk : ∀ m a i v e, env.chk m a i v = .raise e → e.cls ≠ .readOnly)
+    (h : runChecks (checkOne env mod attr v) cs = some e) : e.cls ≠ .readOnly := by
+  induction cs with
+  | nil => cases h
+  | cons c cs ih =>
+    unfold runChecks at h
+    cases c with
+    | limits =>
+      by_cases hl : LimitsOK env mod attr v
+      · simp only [checkOne, checkLimits_of_ok env mod attr v hl] at h; exact ih h
+      · simp only [checkOne, checkLimits_of_not_ok env mod attr v hl] at h
+        injection h with h; rw [← h]; simp [mkErr]
+    | hook i =>
+      simp only [checkOne] at h
+      cases hc : env.chk mod.name attr i v with
+      | pass => rw [hc] at h; exact ih h
+      | stop => rw [hc] at h; cases h
+      | raise e' => rw [hc] at h; injection h with h; rw [← h]; exact hchk _ _ _ _ _ hc
+
+/-- a change of a parameter that is neither read-only nor constant is never answered ReadOnly -/
+theorem writable_reply_ne_readOnly (pre : Predef) (env : Env V) (n : Node J V) (hno : NoForeignReadOnly env n)
+    (m a : String) (mod : Module J V) (p : Param J V) (hl : lookupParam pre n m a = .ok (mod, p))
+    (hr : p.readonly = false) (hc : p.constant = none) (j : J) :
+    (handleChange pre env n (.full m a) j).reply ≠ .error .readOnly := by
+  have hex := exported_of_lookupParam pre n m a mod p hl
+  have hacc := hno.accept mod hex.1 p hex.2.2.2.1
+  have hrev := hno.reval mod hex.1 p hex.2.2.2.1
+  have hfin : ∀ v w, (finishWrite pre env n mod p v w).reply ≠ .error .readOnly := by
+    intro v w
+    unfold finishWrite
+    split
+    · simp only
+      split
+      · rename_i e hd; intro hx; injection hx with hx; exact hno.drv _ e hd hx
+      · intro hx; cases hx
+      · intro hx; simp [store] at hx
+      · split
+        · rename_i e he; intro hx; injection hx with hx; exact hrev _ e he hx
+        · intro hx; simp [store] at hx
+    · intro hx; simp [store] at hx
+  have hadm : ∀ e, admitChange env mod p j = .error e → e.cls ≠ .readOnly := by
+    intro e h
+    unfold admitChange at h
+    simp only [hc, hr, Option.isSome_none, Bool.false_eq_true, if_false] at h
+    cases ha : p.dt.accept j (some p.entry.value) with
+    | error e' => rw [ha] at h; injection h with h; rw [← h]; exact hacc _ _ e' ha
+    | ok v =>
+      rw [ha] at h; simp only at h
+      by_cases hinv : (p.isLimitsPair && pairInverted env v) = true
+      · rw [if_pos hinv] at h; injection h with h; rw [← h]; simp [mkErr]
+      · rw [if_neg hinv] at h
+        cases hrv : p.dt.revalidate v with
+        | error e' => rw [hrv] at h; injection h with h; rw [← h]; exact hrev _ e' hrv
+        | ok w =>
+          rw [hrv] at h; simp only at h
+          cases hrun : runChecks (checkOne env mod p.attr v) p.checks with
+          | some e' =>
+            rw [hrun] at h; injection h with h; rw [← h]
+            exact runChecks_ne_readOnly env mod p.attr v p.checks e' hno.chk hrun
+          | none => rw [hrun] at h; cases h
+  unfold handleChange
+  simp only [target]; rw [hl]; simp only
+  cases hres : admitChange env mod p j with
+  | error e => intro hx; simp only [refuse] at hx; injection hx with hx; exact hadm e hres hx
+  | ok vw => exact hfin vw.1 vw.2
+
+/-- **model_change_probe_ok** (the monitor clause for `change` is sound on the model).  The exchange the model produces
+for ANY `change m:a` — described parameter (read-only, constant or writable), described command or undescribed name —
+satisfies `ProbeOK` against the model's own report, `allowed` being the verdict of the specification's decision list. -/
+theorem model_change_probe_ok [DecidableEq J] (pre : Predef) (env : Env V) (n : Node J V) (hwf : Node.WF pre n)
+    (hno : NoForeignReadOnly env n) (m a : String) (j : J) (allowed : Bool)
+    (hallowed : allowed = true → ∃ m' a' hw v w, changeVerdict pre env n (.full m a) j = .allow m' a' hw v w) :
+    ProbeOK (describe pre n)
+      ⟨.change, m, a, (handleChange pre env n (.full m a) j).reply, (handleChange pre env n (.full m a) j).calls, false,
+       allowed, false, false⟩ := by
+  unfold ProbeOK
+  simp only
+  cases hd : findDesc (describe pre n) m a with
+  | none =>
+    simp only
+    obtain ⟨⟨cls, hch, hcls⟩, _⟩ := undescribed_unreachable pre env n hwf m a hd j none
+    rw [hch]
+    rcases hcls with rfl | rfl <;> simp [isNoSuch]
+  | some ad =>
+    simp only
+    refine ⟨?_, ?_, ?_⟩
+    · intro hk
+      rw [((kind_honoured pre env n hwf m a ad hd none).1 hk).1 j]
+      simp [isNoSuch]
+    · intro hro
+      rw [flags_predict_readonly pre env n hwf m a ad hd hro j]
+      exact ⟨rfl, rfl⟩
+    · intro hro
+      obtain ⟨mod, p, hl, hr, hc, _⟩ := flags_predict_writable pre env n hwf m a ad hd hro j
+      refine ⟨writable_reply_ne_readOnly pre env n hno m a mod p hl hr hc j, ?_⟩
+      intro hal
+      obtain ⟨m', a', hw, v, w, hv⟩ := hallowed hal
+      have hver := handleChange_verdict pre env n hwf (.full m a) j
+      rw [hv] at hver
+      obtain ⟨mod', p', _, _, _, hhw, _, _, heq⟩ := hver
+      rw [heq, finishWrite_calls]
+      cases hb : p'.hasWrite with
+      | true => left; simp
+      | false =>
+        right
+        unfold finishWrite
+        rw [hb]; simp [store, Reply.isError]
+
+/-- **model_read_probe_ok** (the monitor clause for `read`). -/
+theorem model_read_probe_ok [DecidableEq J] (pre : Predef) (env : Env V) (n : Node J V) (hwf : Node.WF pre n)
+    (m a : String) (j0 : J) :
+    ProbeOK (describe pre n)
+      ⟨.read, m, a, (handleRead pre env n (.full m a) false).reply, (handleRead pre env n (.full m a) false).calls, false,
+       false, false, false⟩ := by
+  unfold ProbeOK
+  simp only
+  cases hd : findDesc (describe pre n) m a with
+  | none =>
+    simp only
+    obtain ⟨_, ⟨cls, hch, hcls⟩, _⟩ := undescribed_unreachable pre env n hwf m a hd j0 none
+    rw [hch]
+    rcases hcls with rfl | rfl <;> simp [isNoSuch]
+  | some ad =>
+    simp only
+    refine ⟨?_, ?_⟩
+    · intro hk
+      rw [((kind_honoured pre env n hwf m a ad hd none).1 hk).2.1]
+      simp [isNoSuch]
+    · cases hc : ad.constant with
+      | none => trivial
+      | some c =>
+        simp only
+        rw [constant_reads pre env n hwf m a ad hd c hc]
+        exact ⟨rfl, rfl⟩
+
+open Frappy.Props.C04.Example in
+/-- the example node with its hooks and drivers uses ReadOnly for nothing of its own -/
+theorem Example.noForeign : NoForeignReadOnly env node := by
+  have hdt : ∀ mod ∈ node, ∀ p, Acc.param p ∈ mod.accs → p.dt = dt := by
+    intro mod hmod p hp
+    simp only [node, List.mem_singleton] at hmod; subst hmod
+    simp only [m, List.mem_cons, List.not_mem_nil, or_false] at hp
+    rcases hp with hp | hp | hp | hp
+    · injection hp with hp; subst hp; rfl
+    · injection hp with hp; subst hp; rfl
+    · injection hp with hp; subst hp; rfl
+    · cases hp
+  refine ⟨?_, ?_, ?_, ?_⟩
+  · intro mod hmod p hp j prev e h
+    rw [hdt mod hmod p hp] at h
+    simp only [dt] at h
+    split at h
+    · cases h
+    · injection h with h; rw [← h]; simp
+  · intro mod hmod p hp v e h
+    rw [hdt mod hmod p hp] at h
+    simp [dt] at h
+  · intro m a i v e h
+    simp only [env] at h
+    split at h
+    · injection h with h; rw [← h]; simp
+    · cases h
+  · intro call e h
+    simp [env] at h
+
+open Frappy.Props.C04.Example in
+/-- `model_change_probe_ok` / `model_read_probe_ok` on the example node: an allowed change of the writable `target`
+(it reaches the driver), a change of the constant `_k` (ReadOnly), a read of `_k` (the constant) -/
+example :
+    ProbeOK (describe pre node) ⟨.change, "m", "target", (handleChange pre env node (.full "m" "target") 20).reply,
+      (handleChange pre env node (.full "m" "target") 20).calls, false, true, false, false⟩ ∧
+    ProbeOK (describe pre node) ⟨.change, "m", "_k", (handleChange pre env node (.full "m" "_k") 20).reply,
+      (handleChange pre env node (.full "m" "_k") 20).calls, false, false, false, false⟩ ∧
+    ProbeOK (describe pre node) ⟨.read, "m", "_k", (handleRead pre env node (.full "m" "_k") false).reply,
+      (handleRead pre env node (.full "m" "_k") false).calls, false, false, false, false⟩ :=
+  ⟨model_change_probe_ok pre env node wf Example.noForeign "m" "target" 20 true (fun _ => ⟨"m", "target", true, 20, 20, rfl⟩),
+   model_change_probe_ok pre env node wf Example.noForeign "m" "_k" 20 false (fun h => by cases h),
+   model_read_probe_ok pre env node wf "m" "_k" 0⟩
+
+/-! non-vacuity for the theorems relative to the datatype-oracle laws: a node whose parameter takes numbers up to 100
+(datainfo: the bound), and a client that rebuilds "numbers up to the bound" from the datainfo -/
+namespace Example3
+open Frappy.Props.C04.Example
+
+def upTo100 (v : Nat) : Except Node.Err Nat := if v ≤ 100 then .ok v else .error ⟨.rangeError, "too big"⟩
+
+def dt3 : DtOps Nat Nat where
+  accept := fun j _ => upTo100 j
+  revalidate := upTo100
+  convert := fun r => match r with | some v => upTo100 v | none => .error ⟨.wrongType, "None"⟩
+  exportV := fun v => v
+  datainfo := 100
+
+def p3 : Param Nat Nat :=
+  { attr := "p", exp := .auto, limitHead := none, isLimitsPair := false, readonly := false, constant := none, dt := dt3,
+    entry := ⟨1, none⟩, checks := [], hasRead := true, hasWrite := true, props := [] }
+def m3 : Module Nat Nat := { name := "m", exported := true, accs := [.param p3], props := [] }
+def node3 : Node Nat Nat := [m3]
+def env3 : Env Nat := { env with drv := fun _ => .value 42 }
+
+def client (datainfo j : Nat) : Bool := decide (j ≤ datainfo)
+
+theorem wf3 : Node.WF pre node3 := by
+  refine ⟨by unfold namesNodup; decide +kernel, ?_, ?_, ?_, ?_⟩
+  · intro x hx; simp only [node3, List.mem_singleton] at hx; subst hx; unfold Module.attrsNodup; decide +kernel
+  · intro x hx; simp only [node3, List.mem_singleton] at hx; subst hx; unfold Module.wiresNodup; decide +kernel
+  · intro x hx; simp only [node3, List.mem_singleton] at hx; subst hx
+    intro a ha k hk
+    simp only [m3, List.mem_singleton] at ha
+    subst ha; revert hk; revert k; decide +kernel
+  · intro x hx; simp only [node3, List.mem_singleton] at hx; subst hx
+    intro a ha p hp hc
+    simp only [m3, List.mem_singleton] at ha
+    subst ha; injection hp with hp; subst hp; simp [p3] at hc
+
+theorem upTo100_ok (x v : Nat) (h : upTo100 x = .ok v) : v ≤ 100 := by
+  unfold upTo100 at h; split at h
+  · injection h with h; omega
+  · cases h
+
+theorem validated3 (v : Nat) (h : Validated dt3 v) : v ≤ 100 := by
+  rcases h with ⟨j, _, h⟩ | ⟨x, h⟩ | ⟨r, h⟩
+  · exact upTo100_ok j v h
+  · exact upTo100_ok x v h
+  · cases r with
+    | none => cases h
+    | some x => exact upTo100_ok x v h
+
+theorem importLaw3 : ImportLaw client node3 := by
+  intro mod hmod p hp v hv
+  simp only [node3, List.mem_singleton] at hmod; subst hmod
+  simp only [m3, List.mem_singleton] at hp
+  injection hp with hp; subst hp
+  have := validated3 v hv
+  show decide (v ≤ 100) = true
+  simpa using this
+
+theorem acceptLaw3 : AcceptLaw client node3 := by
+  intro mod hmod p hp j prev
+  simp only [node3, List.mem_singleton] at hmod; subst hmod
+  simp only [m3, List.mem_singleton] at hp
+  injection hp with hp; subst hp
+  show decide (j ≤ 100) = true ↔ ∃ v, upTo100 j = .ok v
+  unfold upTo100
+  by_cases h : j ≤ 100 <;> simp [h]
+
+theorem cacheValid3 : CacheValid node3 := by
+  intro mod hmod p hp
+  simp only [node3, List.mem_singleton] at hmod; subst hmod
+  simp only [m3, List.mem_singleton] at hp
+  injection hp with hp; subst hp
+  exact ⟨Or.inl ⟨1, none, rfl⟩, fun c hc => by simp [p3] at hc⟩
+
+end Example3
+
+open Frappy.Props.C04.Example Example3 in
+/-- `emits_importable` / `emits_importable_history`: the update `change m:_p 20` emits is importable by the client -/
+example : (∃ ad, findDesc (describe pre node3) "m" "_p" = some ad ∧ client ad.datainfo 20 = true) ∧
+    (∃ ad, findDesc (describe pre node3) "m" "_p" = some ad ∧ client ad.datainfo 42 = true) :=
+  ⟨emits_importable pre env node3 wf3 client importLaw3 (.full "m" "_p") 20 "m" "_p" 20 (by decide +kernel),
+   emits_importable_history pre client node3 wf3 importLaw3
+     [(env, .change (.full "m" "_p") 20), (env3, .read (.full "m" "_p") false)]
+     (handleRead pre env3 (handleChange pre env node3 (.full "m" "_p") 20).node (.full "m" "_p") false)
+     (by simp [run, step]) "m" "_p" 42 (by decide +kernel)⟩
+
+open Frappy.Props.C04.Example Example3 in
+/-- `read_reply_importable`: the driver returns 42, the read reply carries 42, the client imports it -/
+example : ∃ ad, findDesc (describe pre node3) "m" "_p" = some ad ∧ client ad.datainfo 42 = true :=
+  read_reply_importable pre env3 node3 wf3 cacheValid3 client importLaw3 "m" "_p" 42 (by decide +kernel)
+
+open Frappy.Props.C04.Example Example3 in
+/-- `described_datainfo_equiv`: the described datainfo accepts 100 and rejects 101, as the node does -/
+example : ∀ j, ∃ mod p, lookupParam pre node3 "m" "_p" = .ok (mod, p) ∧
+    (client 100 j = true ↔ ∃ v, p.dt.accept j (some p.entry.value) = .ok v) := by
+  intro j
+  cases h : findDesc (describe pre node3) "m" "_p" with
+  | none => exact absurd h (by decide +kernel)
+  | some ad =>
+    have hk : ad.kind = .parameter ∧ ad.datainfo = 100 := by
+      have : (findDesc (describe pre node3) "m" "_p").map (fun ad => (ad.kind, ad.datainfo)) = some (.parameter, 100) := by
+        decide +kernel
+      rw [h] at this; simpa using this
+    have := described_datainfo_equiv pre node3 wf3 client acceptLaw3 "m" "_p" ad h hk.1 j
+    rw [hk.2] at this; exact this
+
+/-! non-vacuity for the command theorems: the example node plus a command `go` taking a number up to 5 -/
+namespace Example2
+open Frappy.Props.C04.Example
+
+def go : Command Nat Nat :=
+  { attr := "go", exp := .auto, arg := some ⟨fun j => if j ≤ 5 then .ok j else .error ⟨.rangeError, "too big"⟩⟩, res := none,
+    datainfo := 5, props := [] }
+def m2 : Module Nat Nat :=
+  { name := "m", exported := true, accs := [.param target, .param ro, .command stop, .command go], props := [] }
+def node2 : Node Nat Nat := [m2]
+
+/-- the client rebuilds "numbers up to `datainfo`" from the datainfo -/
+def clientAccepts (datainfo j : Nat) : Bool := decide (j ≤ datainfo)
+
+theorem wf2 : Node.WF pre node2 := by
+  refine ⟨by unfold namesNodup; decide +kernel, ?_, ?_, ?_, ?_⟩
+  · intro x hx; simp only [node2, List.mem_singleton] at hx; subst hx; unfold Module.attrsNodup; decide +kernel
+  · intro x hx; simp only [node2, List.mem_singleton] at hx; subst hx; unfold Module.wiresNodup; decide +kernel
+  · intro x hx; simp only [node2, List.mem_singleton] at hx; subst hx
+    intro a ha k hk
+    simp only [m2, List.mem_cons, List.not_mem_nil, or_false] at ha
+    rcases ha with rfl | rfl | rfl | rfl <;> revert hk <;> revert k <;> decide +kernel
+  · intro x hx; simp only [node2, List.mem_singleton] at hx; subst hx
+    intro a ha p hp hc
+    simp only [m2, List.mem_cons, List.not_mem_nil, or_false] at ha
+    rcases ha with rfl | rfl | rfl | rfl
+    · injection hp with hp; subst hp; simp [Frappy.Props.C04.Example.target] at hc
+    · injection hp with hp; subst hp; rfl
+    · cases hp
+    · cases hp
+
+/-- the oracle law holds for the commands of this node -/
+theorem law2 : ∀ mod ∈ node2, ∀ (c : Command Nat Nat), Acc.command c ∈ mod.accs → ∀ ops, c.arg = some ops →
+    ∀ j, clientAccepts c.datainfo j = true ↔ ∃ v, ops.accept j = .ok v := by
+  intro mod hmod c hc ops harg j
+  simp only [node2, List.mem_singleton] at hmod; subst hmod
+  simp only [m2, List.mem_cons, List.not_mem_nil, or_false] at hc
+  rcases hc with hc | hc | hc | hc
+  · cases hc
+  · cases hc
+  · injection hc with hc; subst hc; simp [stop] at harg
+  · injection hc with hc; subst hc
+    simp only [go, Option.some.injEq] at harg; subst harg
+    show decide (j ≤ 5) = true ↔ ∃ v, (if j ≤ 5 then Except.ok j else Except.error ⟨.rangeError, "too big"⟩ : Except Node.Err Nat) = .ok v
+    by_cases h : j ≤ 5 <;> simp [h]
+
+end Example2
+
+open Frappy.Props.C04.Example Example2 in
+/-- `stop` is described as a command without argument, `go` as one with an argument -/
+example : (findDesc (describe pre node2) "m" "stop").map (fun ad => (ad.kind, ad.argument)) = some (.command, some false) ∧
+    (findDesc (describe pre node2) "m" "_go").map (fun ad => (ad.kind, ad.argument)) = some (.command, some true) := by
+  decide +kernel
+
+open Frappy.Props.C04.Example Example2 in
+/-- the 'empty' payload 0 for the argument-less `stop` is refused without a call; without payload `stop` is executed;
+`go 3` is executed with 3, `go 9` and `go` without payload are refused -/
+example :
+    (handleDo pre env node2 (.full "m" "stop") (some 0)).reply = .error .wrongType ∧
+    (handleDo pre env node2 (.full "m" "stop") (some 0)).calls = [] ∧
+    (handleDo pre env node2 (.full "m" "stop") none).calls = [DriverCall.cmd "m" "stop" none] ∧
+    (handleDo pre env node2 (.full "m" "_go") (some 3)).calls = [DriverCall.cmd "m" "go" (some 3)] ∧
+    (handleDo pre env node2 (.full "m" "_go") (some 9)).reply = .error .rangeError ∧
+    (handleDo pre env node2 (.full "m" "_go") none).reply = .error .wrongType := by
+  decide +kernel
+
+open Frappy.Props.C04.Example Example2 in
+/-- `command_datainfo_equiv` and `model_do_probe_ok` apply to this node (hypotheses satisfiable), e.g. for `go 3`
+(accepted by the described datainfo, hence executed) and `stop 0` (excluded, hence refused) -/
+example : (handleDo pre env node2 (.full "m" "_go") (some 3)).calls ≠ [] ∧
+    (∃ cls, handleDo pre env node2 (.full "m" "stop") (some 0) = ⟨.error cls, [], [], node2⟩) ∧
+    ProbeOK (describe pre node2) ⟨.do_, "m", "stop", (handleDo pre env node2 (.full "m" "stop") (some 0)).reply,
+      (handleDo pre env node2 (.full "m" "stop") (some 0)).calls, false, false, true, true⟩ := by
+  refine ⟨?_, ?_, ?_⟩
+  · cases h : findDesc (describe pre node2) "m" "_go" with
+    | none => exact absurd h (by decide +kernel)
+    | some ad =>
+      have hk : ad.kind = .command := by
+        have : (findDesc (describe pre node2) "m" "_go").map (·.kind) = some .command := by decide +kernel
+        rw [h] at this; simpa using this
+      have hacc : describedAccepts clientAccepts ad (some 3) = true := by
+        have : (findDesc (describe pre node2) "m" "_go").map (fun ad => describedAccepts clientAccepts ad (some 3)) = some true := by
+          decide +kernel
+        rw [h] at this; simpa using this
+      exact ((command_datainfo_equiv pre env node2 wf2 clientAccepts law2 "m" "_go" ad h hk (some 3)).1 hacc).1
+  · cases h : findDesc (describe pre node2) "m" "stop" with
+    | none => exact absurd h (by decide +kernel)
+    | some ad =>
+      have hk : ad.kind = .command := by
+        have : (findDesc (describe pre node2) "m" "stop").map (·.kind) = some .command := by decide +kernel
+        rw [h] at this; simpa using this
+      have hacc : describedAccepts clientAccepts ad (some 0) = false := by
+        have : (findDesc (describe pre node2) "m" "stop").map (fun ad => describedAccepts clientAccepts ad (some 0)) = some false := by
+          decide +kernel
+        rw [h] at this; simpa using this
+      exact (command_datainfo_equiv pre env node2 wf2 clientAccepts law2 "m" "stop" ad h hk (some 0)).2 hacc
+  · exact model_do_probe_ok pre env node2 wf2 clientAccepts law2 "m" "stop" (some 0) true (by
+      intro ad j had hj
+      injection hj with hj; subst hj
+      have : (findDesc (describe pre node2) "m" "stop").map (fun ad => clientAccepts ad.datainfo 0) = some true := by decide +kernel
+      rw [had] at this
+      simp only [Option.map_some, Option.some.injEq] at this
+      exact this.symm)
+
+open Frappy.Props.C04.Example Example2 in
+/-- `kind_honoured` on this node: the command `stop` can not be changed or read, the parameter `target` not executed -/
+example : (handleChange pre env node2 (.full "m" "stop") 1).reply = .error .noSuchParameter ∧
+    (handleDo pre env node2 (.full "m" "target") none).reply = .error .noSuchCommand := by
+  decide +kernel
+
+/-! ### module properties: configuration first, automatic properties afterwards -/
+
+section ModuleProps
+variable {P : Type}
+
+/-- **auto_props_ignore_cfg.**  Whatever the configuration of the module says — also for the names `implementation`,
+`interface_classes`, `features`, which the configuration loop accepts like any declared property — the values of these
+three properties after `Module.__init__` are the ones computed from the implementing class. -/
+theorem auto_props_ignore_cfg (enc : PropEnc P) (base : List String) (i : ModInit P) :
+    getProp (propertyValues enc base i) "interface_classes" = some (enc.strs (interfaceClassesOf base i.mro)) ∧
+    getProp (propertyValues enc base i) "features" = some (enc.strs (featuresOf i.mro)) ∧
+    getProp (propertyValues enc base i) "implementation" = some (enc.str i.impl) :=
+  ⟨setAuto_interface .., setAuto_features .., setAuto_implementation ..⟩
+
+/-- every OTHER declared property does follow the configuration (so the model of step 2 is not vacuous): a configured
+value wins over the class-level value -/
+theorem cfg_prop_applied (enc : PropEnc P) (base : List String) (i : ModInit P) (d : PropDecl P) (hd : d ∈ i.decls)
+    (h1 : d.name ≠ "features") (h2 : d.name ≠ "interface_classes") (h3 : d.name ≠ "implementation")
+    (v : P) (hv : getProp i.cfg d.name = some v) :
+    propValue (propertyValues enc base i) d = v := by
+  unfold propValue propertyValues
+  rw [setAuto_other _ _ _ _ _ _ h1 h2 h3, getProp_applyCfg, if_pos (List.mem_map_of_mem hd)]
+  unfold cfgOr; rw [hv]; rfl
+
+/-- what the report says about the three automatic properties, explicitly -/
+theorem reported_auto_props [DecidableEq P] (ser : P → J) (enc : PropEnc P) (base : List String) (i : ModInit P)
+    (hd : AutoDecls ser i.decls (ser (enc.strs [])) (ser (enc.str ""))) :
+    reportedProp (moduleProps ser enc base i) "interface_classes" (ser (enc.strs [])) =
+      ser (enc.strs (interfaceClassesOf base i.mro)) ∧
+    reportedProp (moduleProps ser enc base i) "features" (ser (enc.strs [])) = ser (enc.strs (featuresOf i.mro)) ∧
+    reportedProp (moduleProps ser enc base i) "implementation" (ser (enc.str "")) = ser (enc.str i.impl) := by
+  obtain ⟨dI, hI, hIn, hIe, hIx, hId⟩ := hd.ic
+  obtain ⟨dF, hF, hFn, hFe, hFx, hFd⟩ := hd.feats
+  obtain ⟨dM, hM, hMn, hMe, hMx, hMd⟩ := hd.impl
+  obtain ⟨a1, a2, a3⟩ := auto_props_ignore_cfg enc base i
+  refine ⟨?_, ?_, ?_⟩
+  · have := reportedProp_exportProps ser i.decls (propertyValues enc base i) hd.uniq dI hI hIx
+    rw [hIe, hId] at this
+    show reportedProp (exportProps ser i.decls (propertyValues enc base i)) _ _ = _
+    rw [this]; unfold propValue; rw [hIn, a1]; rfl
+  · have := reportedProp_exportProps ser i.decls (propertyValues enc base i) hd.uniq dF hF hFx
+    rw [hFe, hFd] at this
+    show reportedProp (exportProps ser i.decls (propertyValues enc base i)) _ _ = _
+    rw [this]; unfold propValue; rw [hFn, a2]; rfl
+  · have := reportedProp_exportProps ser i.decls (propertyValues enc base i) hd.uniq dM hM hMx
+    rw [hMe, hMd] at this
+    show reportedProp (exportProps ser i.decls (propertyValues enc base i)) _ _ = _
+    rw [this]; unfold propValue; rw [hMn, a3]; rfl
+
+/-- **report_class_props** (the clause "the interface class and features match the implementing class", for every
+configuration).  For a class that declares the three automatic properties (`AutoDecls`, a table fact for frappy's `Module`),
+whatever the module's configuration contains: what the report gives for `interface_classes` and `features` (an absent entry
+reads as the empty list) are the interface class and the features of the class chain — they satisfy `ClassPropsOK` —
+and `implementation` is the name of the implementing class. -/
+theorem report_class_props [DecidableEq P] (ser : P → J) (enc : PropEnc P) (base : List String) (i : ModInit P)
+    (hd : AutoDecls ser i.decls (ser (enc.strs [])) (ser (enc.str ""))) :
+    ReportClassPropsOK ⟨fun s => ser (enc.str s), fun l => ser (enc.strs l)⟩ base i.impl i.mro (moduleProps ser enc base i) := by
+  obtain ⟨h1, h2, h3⟩ := reported_auto_props ser enc base i hd
+  exact ⟨interfaceClassesOf base i.mro, featuresOf i.mro, class_props_derived base i.mro, h1, h2, h3⟩
+
+/-- corollary: two configurations of the same class give the same three entries -/
+theorem class_props_cfg_independent [DecidableEq P] (ser : P → J) (enc : PropEnc P) (base : List String) (i : ModInit P)
+    (hd : AutoDecls ser i.decls (ser (enc.strs [])) (ser (enc.str ""))) (cfg' : List (String × P)) :
+    reportedProp (moduleProps ser enc base i) "interface_classes" (ser (enc.strs [])) =
+      reportedProp (moduleProps ser enc base { i with cfg := cfg' }) "interface_classes" (ser (enc.strs [])) ∧
+    reportedProp (moduleProps ser enc base i) "features" (ser (enc.strs [])) =
+      reportedProp (moduleProps ser enc base { i with cfg := cfg' }) "features" (ser (enc.strs [])) ∧
+    reportedProp (moduleProps ser enc base i) "implementation" (ser (enc.str "")) =
+      reportedProp (moduleProps ser enc base { i with cfg := cfg' }) "implementation" (ser (enc.str "")) := by
+  obtain ⟨h1, h2, h3⟩ := reported_auto_props ser enc base i hd
+  obtain ⟨h1', h2', h3'⟩ := reported_auto_props ser enc base { i with cfg := cfg' } hd
+  exact ⟨by rw [h1, h1'], by rw [h2, h2'], by rw [h3, h3']⟩
+
+def moduleDeclsTable : List (PropDecl (String × String)) :=
+  Frappy.Generated.C06.moduleDecls.map (fun e => ⟨e.1, e.2.1, e.2.2.1, e.2.2.2.1, (e.2.2.2.2.1, e.2.2.2.2.2)⟩)
+
+/-- table fact: frappy's `Module` declares the three automatic properties as `AutoDecls` wants them: exported under their
+own names, the defaults read `[]`, `[]`, `""` (re-checked whenever modulebase.py changes) -/
+theorem module_decls_auto : AutoDecls (fun p : String × String => p.2) moduleDeclsTable "[]" "\"\"" := by
+  refine ⟨?_, ?_, ?_, ?_⟩
+  · unfold ExtUnique; decide +kernel
+  · decide +kernel
+  · decide +kernel
+  · decide +kernel
+
+/-- a toy serialisation for the examples (Python value, exported text) — without string concatenation, which the kernel
+cannot evaluate: a one-element list is written as its element -/
+def exEnc : PropEnc (String × String) where
+  str := fun s => if s = "" then ("s:\"\"", "\"\"") else (s, s)
+  strs := fun l => match l with
+    | [] => ("t[]", "[]")
+    | [x] => (x, x)
+    | _ => ("many", "many")
+
+/-- non-vacuity: a Readable whose configuration claims to be a Drivable with a feature and another implementation, and
+sets a group: the group is taken over, the three automatic properties are those of the class (`features`: the validated
+empty tuple differs from the default `[]`, so it is exported) -/
+example :
+    moduleProps (fun p : String × String => p.2) exEnc Frappy.Generated.C06.secopBaseClasses
+      ⟨moduleDeclsTable, [],
+       [("group", ("s:g", "g")), ("interface_classes", ("Drivable", "Drivable")),
+        ("features", ("HasOffset", "HasOffset")), ("implementation", ("x.Y", "x.Y"))],
+       "demo.Plain", [⟨"Plain", false⟩, ⟨"Readable", false⟩, ⟨"Module", false⟩]⟩ =
+      [("group", "g"), ("implementation", "demo.Plain"), ("interface_classes", "Readable"), ("features", "[]")] := by
+  decide +kernel
+
+/-- the hypotheses of `report_class_props` hold for frappy's `Module` with that serialisation -/
+example (cfg : List (String × String × String)) (mro : List ClassInfo) :
+    ReportClassPropsOK ⟨fun s => (exEnc.str s).2, fun l => (exEnc.strs l).2⟩ Frappy.Generated.C06.secopBaseClasses "demo.Plain" mro
+      (moduleProps (fun p : String × String => p.2) exEnc Frappy.Generated.C06.secopBaseClasses
+        ⟨moduleDeclsTable, [], cfg, "demo.Plain", mro⟩) :=
+  report_class_props (fun p : String × String => p.2) exEnc Frappy.Generated.C06.secopBaseClasses
+    ⟨moduleDeclsTable, [], cfg, "demo.Plain", mro⟩ module_decls_auto
+
+end ModuleProps
 
 /-! ### non-vacuity (the node of `Props.C04.Example`) -/
 
